@@ -34,7 +34,7 @@ use params::{
 use serde_json::{Value, json};
 
 use p3_challenger::{CanObserve, CanSample, CanSampleBits, FieldChallenger, GrindingChallenger};
-use super::{EvLog, InstStatic, ShapeParams, shape_line};
+use super::{EvLog, FriSpec, InstStatic, PowOverride, ShapeParams, effective_pow_bits, grind_variants, pow_reads, shape_line};
 use super::{AddAir, Circ, DemoAir, MulAir, Native, RunFn, Target, add_trace, bus_trace, panic_msg, perm_trace, table_trace, variant, variant2};
 use super::forge_prover::{Forge, forge_prove_batch};
 use super::forge_prover::uni::forge_prove_uni;
@@ -100,37 +100,70 @@ fn rec_ch(log: &EvLog) -> RecCh {
     RecCh { inner: Challenger::new(default_perm()), log: log.clone() }
 }
 
-/// Same PCS as `cfg`'s maker, recording challenger. `which`: 0 = test params, 1 = fri2, 2 = zk.
-fn rec_config(log: &EvLog, fri2: bool) -> RecConfig {
+/// Native `FriParameters` of a spec. The grinding bit counts go through `effective_pow_bits`: while the
+/// adversarial prover of a `grind:c:q` forgery builds its config they are `(c, q)`, otherwise the spec's.
+fn fri_of_spec(spec: FriSpec, mmcs: ChallengeMmcs) -> FriParameters<ChallengeMmcs> {
+    let (cpow, qpow) = effective_pow_bits(&spec);
+    FriParameters {
+        log_blowup: spec.log_blowup,
+        log_final_poly_len: spec.log_final,
+        max_log_arity: spec.max_log_arity,
+        num_queries: spec.queries,
+        commit_proof_of_work_bits: cpow,
+        query_proof_of_work_bits: qpow,
+        mmcs,
+    }
+}
+
+fn mmcs_pair() -> (MyMmcs, ChallengeMmcs) {
     let perm = default_perm();
     let hash = MyHash::new(perm.clone());
-    let compress = MyCompress::new(perm.clone());
+    let compress = MyCompress::new(perm);
     let val_mmcs = MyMmcs::new(hash, compress, 0);
     let challenge_mmcs = ChallengeMmcs::new(val_mmcs.clone());
-    let fri = if fri2 {
-        FriParameters {
-            log_blowup: 1,
-            log_final_poly_len: 1,
-            max_log_arity: 2,
-            num_queries: 3,
-            commit_proof_of_work_bits: 0,
-            query_proof_of_work_bits: 2,
-            mmcs: challenge_mmcs,
-        }
-    } else {
-        FriParameters::new_testing(challenge_mmcs, 0)
-    };
+    (val_mmcs, challenge_mmcs)
+}
+
+/// Plain PCS (`TwoAdicFriPcs`) with the FRI parameters of `spec`.
+fn make_config_spec(spec: FriSpec) -> MyConfig {
+    let (val_mmcs, challenge_mmcs) = mmcs_pair();
+    let fri = fri_of_spec(spec, challenge_mmcs);
+    MyConfig::new(params::MyPcs::new(Dft::default(), val_mmcs, fri), Challenger::new(default_perm()))
+}
+
+/// Hiding PCS (`HidingFriPcs`, 2 random codewords) with the FRI parameters of `spec`.
+fn make_zk_config_spec(seed: u64, spec: FriSpec) -> MyConfigZk {
+    let (val_mmcs, challenge_mmcs) = mmcs_pair();
+    let fri = fri_of_spec(spec, challenge_mmcs);
+    let pcs = MyPcsZk::new(Dft::default(), val_mmcs, fri, 2, SmallRng::seed_from_u64(seed));
+    MyConfigZk::new(pcs, Challenger::new(default_perm()))
+}
+
+/// Same PCS as `make_config_spec`, recording challenger.
+fn rec_config_spec(log: &EvLog, spec: FriSpec) -> RecConfig {
+    let (val_mmcs, challenge_mmcs) = mmcs_pair();
+    let fri = fri_of_spec(spec, challenge_mmcs);
     RecConfig::new(params::MyPcs::new(Dft::default(), val_mmcs, fri), rec_ch(log))
 }
 
-fn rec_config_zk(log: &EvLog) -> RecConfigZk {
-    let perm = default_perm();
-    let hash = MyHash::new(perm.clone());
-    let compress = MyCompress::new(perm.clone());
-    let val_mmcs = MyMmcs::new(hash, compress, 0);
-    let challenge_mmcs = ChallengeMmcs::new(val_mmcs.clone());
-    let fri = FriParameters::new_testing(challenge_mmcs, 0);
+fn rec_config_zk_spec(log: &EvLog, spec: FriSpec) -> RecConfigZk {
+    let (val_mmcs, challenge_mmcs) = mmcs_pair();
+    let fri = fri_of_spec(spec, challenge_mmcs);
     RecConfigZk::new(MyPcsZk::new(Dft::default(), val_mmcs, fri, 2, SmallRng::seed_from_u64(9)), rec_ch(log))
+}
+
+/// The circuit's verifying parameters of a spec (never under a prover-side override).
+fn fri_params_spec(spec: FriSpec) -> FriVerifierParams {
+    FriVerifierParams::with_mmcs(spec.log_blowup, spec.log_final, spec.cpow, spec.qpow, P2)
+}
+
+/// Same PCS as `cfg`'s maker, recording challenger.
+fn rec_config(log: &EvLog, fri2: bool) -> RecConfig {
+    rec_config_spec(log, if fri2 { FriSpec::FRI2 } else { FriSpec::TESTING })
+}
+
+fn rec_config_zk(log: &EvLog) -> RecConfigZk {
+    rec_config_zk_spec(log, FriSpec::TESTING)
 }
 
 fn fri_params() -> FriVerifierParams {
@@ -141,25 +174,11 @@ fn fri_params() -> FriVerifierParams {
 /// A second, still tiny, FRI parameter set: blowup 2, arity up to 4, final polynomial of length 2,
 /// 3 queries, no commit-phase grinding, 2 bits of query grinding.
 fn make_config_fri2() -> MyConfig {
-    let perm = default_perm();
-    let hash = MyHash::new(perm.clone());
-    let compress = MyCompress::new(perm.clone());
-    let val_mmcs = MyMmcs::new(hash, compress, 0);
-    let challenge_mmcs = ChallengeMmcs::new(val_mmcs.clone());
-    let fri = FriParameters {
-        log_blowup: 1,
-        log_final_poly_len: 1,
-        max_log_arity: 2,
-        num_queries: 3,
-        commit_proof_of_work_bits: 0,
-        query_proof_of_work_bits: 2,
-        mmcs: challenge_mmcs,
-    };
-    MyConfig::new(params::MyPcs::new(Dft::default(), val_mmcs, fri), Challenger::new(perm))
+    make_config_spec(FriSpec::FRI2)
 }
 
 fn fri_params2() -> FriVerifierParams {
-    FriVerifierParams::with_mmcs(1, 1, 0, 2, P2)
+    fri_params_spec(FriSpec::FRI2)
 }
 
 fn new_builder() -> CircuitBuilder<Challenge> {
@@ -258,7 +277,11 @@ macro_rules! uni_target {
                 let r = catch_unwind(AssertUnwindSafe(|| verify_with_preprocessed(&config, &air, &proof, &pis, vk.as_ref())));
                 Some(match r {
                     Ok(Ok(())) => Native::Accept,
-                    Ok(Err(e)) => Native::Reject(variant(&format!("{e:?}"))),
+                    Ok(Err(e)) => {
+                        // `InvalidOpeningArgument(InvalidPowWitness)` → `InvalidOpeningArgument/InvalidPowWitness`
+                        let full: String = format!("{e:?}").chars().take(120).collect();
+                        Native::Reject(format!("{}|{}", variant2(&full), full))
+                    }
                     Err(p) => Native::Panic(panic_msg(p)),
                 })
             })
@@ -327,7 +350,15 @@ macro_rules! uni_target {
             let t = $trace;
             (t.values.len(), pis.len())
         };
-        let forge_ids = super::forge_ids(&[t_len], &[n_pis], &[0]);
+        // does this target's config maker take its grinding bit counts through `effective_pow_bits`?
+        let grind_ok = {
+            let r0 = pow_reads();
+            let _g = PowOverride::set(spec.0, spec.1);
+            let _ = $mk_cfg();
+            pow_reads() > r0
+        };
+        let grind: Vec<(usize, usize)> = if grind_ok { grind_variants(spec.0, spec.1) } else { vec![] };
+        let forge_ids = super::forge_ids(&[t_len], &[n_pis], &[0], &grind);
         let forge_fn = {
             let pis = pis.clone();
             move |id: &str| -> Result<Value, String> {
@@ -335,8 +366,10 @@ macro_rules! uni_target {
                 let mut trace = $trace;
                 let mut pis = pis.clone();
                 let mut quot = None;
+                let mut prover_pow: Option<(usize, usize)> = None;
                 match spec {
                     super::ForgeSpec::None => {}
+                    super::ForgeSpec::Grind(c, q) => prover_pow = Some((c, q)),
                     super::ForgeSpec::Trace(0, cell, delta) => {
                         let n = trace.values.len();
                         trace.values[cell % n] += F::from_u64(delta);
@@ -350,8 +383,17 @@ macro_rules! uni_target {
                     super::ForgeSpec::Quot(0, cell) => quot = Some(cell),
                     _ => return Err(format!("forgery {id} does not apply to a uni-STARK target")),
                 }
-                let r = catch_unwind(AssertUnwindSafe(|| {
+                // the prover's config: the target's, with the prover-side grinding bit counts if any
+                let config = {
+                    let r0 = pow_reads();
+                    let _g = prover_pow.map(|(c, q)| PowOverride::set(c, q));
                     let config = $mk_cfg();
+                    if prover_pow.is_some() && pow_reads() == r0 {
+                        return Err(format!("forgery {id}: this target's config ignores the prover-side grinding override"));
+                    }
+                    config
+                };
+                let r = catch_unwind(AssertUnwindSafe(|| {
                     let air = $mk_air;
                     let log_h = p3_util::log2_strict_usize(trace.height());
                     let (ppd, vk) = setup_preprocessed(&config, &air, log_h).unzip();
@@ -380,14 +422,7 @@ type MyConfigZk = StarkConfig<MyPcsZk, Challenge, Challenger>;
 type InnerFriZk = HidingFriProofTargets<F, Challenge, RecExtensionValMmcs<F, Challenge, DIGEST_ELEMS, RecVal>, InputProof, Witness<F>>;
 
 fn make_zk_config(seed: u64) -> MyConfigZk {
-    let perm = default_perm();
-    let hash = MyHash::new(perm.clone());
-    let compress = MyCompress::new(perm.clone());
-    let val_mmcs = MyMmcs::new(hash, compress, 0);
-    let challenge_mmcs = ChallengeMmcs::new(val_mmcs.clone());
-    let fri = FriParameters::new_testing(challenge_mmcs, 0);
-    let pcs = MyPcsZk::new(Dft::default(), val_mmcs, fri, 2, SmallRng::seed_from_u64(seed));
-    MyConfigZk::new(pcs, Challenger::new(perm))
+    make_zk_config_spec(seed, FriSpec::TESTING)
 }
 
 /// Verifying data of a batch: the real `CommonData` of the AIRs with the global preprocessed
@@ -409,7 +444,13 @@ macro_rules! common_of {
 
 /// A batch-STARK target over `DemoAir` instances, for the plain or the hiding PCS.
 macro_rules! batch_target {
-    ($name:expr, $SC:ty, $INNER:ty, $mk_config:expr, $fri_of:ident, $RSC:ty, $mk_rec:expr, $airs:expr, $traces:expr, $pvs:expr) => {{
+    ($name:expr, $SC:ty, $INNER:ty, $mk_config:expr, $fri_of:ident, $RSC:ty, $mk_rec:expr, $airs:expr, $traces:expr, $pvs:expr) => {
+        batch_target!($name, $SC, $INNER, $mk_config, $fri_of, $RSC, $mk_rec, $airs, $traces, $pvs, fri_params, (1usize, 1usize, 2usize, 0usize))
+    };
+    // `$frip`: the circuit's verifying parameters; `$spec` = (cpow, qpow, log_blowup, log_final) of the native ones
+    ($name:expr, $SC:ty, $INNER:ty, $mk_config:expr, $fri_of:ident, $RSC:ty, $mk_rec:expr, $airs:expr, $traces:expr, $pvs:expr,
+     $frip:expr, $spec:expr) => {{
+        let fspec: (usize, usize, usize, usize) = $spec;
         let name: String = format!("{}/{}/{}", if stringify!($SC) == "MyConfigZk" { "batchzk" } else { "batch" }, TAG, $name);
         let airs: Vec<DemoAir> = $airs;
         let traces: Vec<p3_matrix::dense::RowMajorMatrix<F>> = $traces;
@@ -451,7 +492,7 @@ macro_rules! batch_target {
             })
             .collect();
         let sp = ShapeParams { mode: "batch", zk: is_zk, d: 4, dg: DIGEST_ELEMS, nrc: if is_zk { 2 } else { 0 },
-            cpow: 1, qpow: 1, log_blowup: 2, log_final: 0 };
+            cpow: fspec.0, qpow: fspec.1, log_blowup: fspec.2, log_final: fspec.3 };
         let shape = shape_line(&sp, &serde_json::to_value(&proof).unwrap(), &insts);
         let honest = json!({
             "proof": serde_json::to_value(&proof).unwrap(),
@@ -491,7 +532,7 @@ macro_rules! batch_target {
                     return Err(Circ::BuildErr("InstanceCount".into()));
                 }
                 let vi = BatchStarkVerifierInputsBuilder::<$SC, Comm, $INNER>::allocate(&mut cb, &proof, &common, &counts);
-                let params = fri_params();
+                let params = $frip();
                 let lg = LogUpGadget::new();
                 let op_ids = verify_batch_circuit::<DemoAir, $SC, Comm, InputProof, $INNER, LogUpGadget, _, WIDTH, RATE>(
                     &config,
@@ -544,7 +585,14 @@ macro_rules! batch_target {
         };
         // prover-side forgeries: the adversarial prover on altered traces / public values / derived values
         let n_lk: Vec<usize> = prover_data.common.lookups.iter().map(|l| l.len()).collect();
-        let forge_ids = super::forge_ids(&traces.iter().map(|t| t.values.len()).collect::<Vec<_>>(), &pvs.iter().map(|p| p.len()).collect::<Vec<_>>(), &n_lk);
+        let grind_ok = {
+            let r0 = pow_reads();
+            let _g = PowOverride::set(fspec.0, fspec.1);
+            let _: $SC = $mk_config(1);
+            pow_reads() > r0
+        };
+        let grind: Vec<(usize, usize)> = if grind_ok { grind_variants(fspec.0, fspec.1) } else { vec![] };
+        let forge_ids = super::forge_ids(&traces.iter().map(|t| t.values.len()).collect::<Vec<_>>(), &pvs.iter().map(|p| p.len()).collect::<Vec<_>>(), &n_lk, &grind);
         let forge_fn = {
             let airs = airs.clone();
             let traces = traces.clone();
@@ -554,8 +602,10 @@ macro_rules! batch_target {
                 let mut traces = traces.clone();
                 let mut pvs = pvs.clone();
                 let mut fg = Forge::<$SC>::none();
+                let mut prover_pow: Option<(usize, usize)> = None;
                 match spec {
                     super::ForgeSpec::None => {}
+                    super::ForgeSpec::Grind(c, q) => prover_pow = Some((c, q)),
                     super::ForgeSpec::Trace(i, cell, delta) => {
                         let t = traces.get_mut(i).ok_or("instance")?;
                         let n = t.values.len();
@@ -575,7 +625,16 @@ macro_rules! batch_target {
                     super::ForgeSpec::Perm(i, cell) => fg.perm_cell = Some((i, cell)),
                     super::ForgeSpec::Quot(i, cell) => fg.quotient_cell = Some((i, cell)),
                 }
-                let config: $SC = $mk_config(1);
+                // the prover's config: the target's, with the prover-side grinding bit counts if any
+                let config: $SC = {
+                    let r0 = pow_reads();
+                    let _g = prover_pow.map(|(c, q)| PowOverride::set(c, q));
+                    let config: $SC = $mk_config(1);
+                    if prover_pow.is_some() && pow_reads() == r0 {
+                        return Err(format!("forgery {id}: this target's config ignores the prover-side grinding override"));
+                    }
+                    config
+                };
                 let r = catch_unwind(AssertUnwindSafe(|| {
                     let instances: Vec<StarkInstance<'_, $SC, DemoAir>> = airs
                         .iter()
@@ -600,7 +659,7 @@ macro_rules! batch_target {
             Ok(_) => Some("proof differs from p3_batch_stark::prove_batch on the honest witness".to_string()),
             Err(e) => Some(e),
         };
-        Target { name, honest, native, build, include: Box::new(|_| true), shape, transcript, pow_bits: (1, 1),
+        Target { name, honest, native, build, include: Box::new(|_| true), shape, transcript, pow_bits: (fspec.0, fspec.1),
             forge_ids, forge: Some(Box::new(forge_fn)), drift }
     }};
 }
@@ -608,7 +667,21 @@ macro_rules! batch_target {
 /// Batch proof of a small circuit by the real `BatchStarkProver` (Const / Public / ALU tables with
 /// preprocessed columns and the LogUp witness bus), verified by `verify_p3_batch_proof_circuit`.
 fn tables_target() -> Target {
-    let name = format!("tables/{TAG}/arith");
+    tables_target_spec("arith", None)
+}
+
+/// `spec = None`: the repo's `make_test_config` (= `FriSpec::TESTING`); `Some`: the same PCS with other FRI parameters.
+fn tables_target_spec(tname: &str, spec: Option<FriSpec>) -> Target {
+    let name = format!("tables/{TAG}/{tname}");
+    let mk_cfg = move || match spec {
+        None => make_test_config(),
+        Some(s) => make_config_spec(s),
+    };
+    let mk_params = move || match spec {
+        None => fri_params(),
+        Some(s) => fri_params_spec(s),
+    };
+    let fs = spec.unwrap_or(FriSpec::TESTING);
     let mut b = CircuitBuilder::<F>::new();
     let x = b.alloc_public_input("x");
     let expected = b.alloc_public_input("y");
@@ -632,7 +705,7 @@ fn tables_target() -> Target {
     }
     runner.set_public_inputs(&[F::from_u64(7), yv]).unwrap();
     let traces = runner.run().unwrap();
-    let config = make_test_config();
+    let config = mk_cfg();
     let pd = ProverData::from_airs_and_degrees(&config, &airs, &degrees);
     let cpd = CircuitProverData::new(pd, prim, nonprim);
     let prover = BatchStarkProver::new(config).with_table_packing(packing);
@@ -640,7 +713,7 @@ fn tables_target() -> Target {
     let lookups = Rc::new(cpd.common_data().lookups.clone());
     let log = EvLog::default();
     let transcript = {
-        let rprover = BatchStarkProver::new(rec_config(&log, false));
+        let rprover = BatchStarkProver::new(rec_config_spec(&log, fs));
         let bsp_r: BatchStarkProof<RecConfig> = serde_json::from_value(serde_json::to_value(&bsp).unwrap()).unwrap();
         log.clear();
         let _ = catch_unwind(AssertUnwindSafe(|| rprover.verify_all_tables::<F>(&bsp_r)));
@@ -658,7 +731,8 @@ fn tables_target() -> Target {
             n_lookups: cpd.common_data().lookups[i].len(),
         })
         .collect();
-    let sp = ShapeParams { mode: "batch", zk: false, d: 4, dg: DIGEST_ELEMS, nrc: 0, cpow: 1, qpow: 1, log_blowup: 2, log_final: 0 };
+    let sp = ShapeParams { mode: "batch", zk: false, d: 4, dg: DIGEST_ELEMS, nrc: 0, cpow: fs.cpow, qpow: fs.qpow,
+        log_blowup: fs.log_blowup, log_final: fs.log_final };
     let shape = shape_line(&sp, &serde_json::to_value(&bsp.proof).unwrap(), &insts);
     let n_tables = bsp.proof.opened_values.instances.len();
     let honest = json!({"bsp": serde_json::to_value(&bsp).unwrap()});
@@ -668,7 +742,7 @@ fn tables_target() -> Target {
     }
     let native = Box::new(move |j: &Value| -> Option<Native> {
         let bsp = parse(j)?;
-        let prover = BatchStarkProver::new(make_test_config());
+        let prover = BatchStarkProver::new(mk_cfg());
         let r = catch_unwind(AssertUnwindSafe(|| prover.verify_all_tables::<F>(&bsp)));
         Some(match r {
             Ok(Ok(())) => Native::Accept,
@@ -680,7 +754,7 @@ fn tables_target() -> Target {
         let lookups = lookups.clone();
         Box::new(move |j: &Value| -> Result<RunFn, Circ> {
             let bsp = parse(j).ok_or(Circ::BuildErr("deser".into()))?;
-            let config = make_test_config();
+            let config = mk_cfg();
             // verifying data: the preprocessed binding carried with the proof + the lookups of the tables
             let common_of = {
                 let lookups = lookups.clone();
@@ -697,7 +771,7 @@ fn tables_target() -> Target {
             };
             let common = common_of(&bsp);
             let mut cb = new_builder();
-            let params = fri_params();
+            let params = mk_params();
             let lg = LogUpGadget::new();
             let (vi, op_ids) = verify_p3_batch_proof_circuit::<MyConfig, Comm, InputProof, InnerFri, LogUpGadget, _, WIDTH, RATE, 1>(
                 &config, &mut cb, &bsp, &params, &common, &lg, P2, &[],
@@ -737,7 +811,7 @@ fn tables_target() -> Target {
         include: Box::new(|k| k.starts_with("bsp/proof/") || k.starts_with("bsp/stark_common/")),
         shape,
         transcript,
-        pow_bits: (1, 1),
+        pow_bits: (fs.cpow, fs.qpow),
         forge_ids: vec![],
         forge: None,
         drift: None,
@@ -1016,4 +1090,126 @@ pub fn targets(out: &mut Vec<(String, Box<dyn Fn() -> Target>)>) {
             )
         }),
     ));
+    pow_targets(out);
+}
+
+/// Verifying FRI parameters that are not the symmetric test defaults (`new_testing`: 1 + 1 grinding bits), for
+/// every PCS flavour: commit-phase bits < query-phase bits (`C1Q8`), no commit-phase grinding (`C0Q3`, the
+/// shape of `FriParameters::new_benchmark*`), commit-phase bits > query-phase bits (`C3Q1`), and for the
+/// hiding PCS also the second parameter set (`FRI2`: blowup 2, arity 4, final polynomial of length 2, 3 queries).
+/// On each of them the adversarial prover also grinds fewer / more bits than the verifier demands
+/// (`grind:c:q`, see `grind_variants`).
+fn pow_targets(out: &mut Vec<(String, Box<dyn Fn() -> Target>)>) {
+    const C1Q8: FriSpec = FriSpec::TESTING.pow(1, 8);
+    const C0Q3: FriSpec = FriSpec::TESTING.pow(0, 3);
+    const C3Q1: FriSpec = FriSpec::TESTING.pow(3, 1);
+    const C2Q3: FriSpec = FriSpec::TESTING.pow(2, 3);
+    let mul = MulAir { degree: 3, rows: 8, reps: 2, pre_next: true, main_next: true };
+
+    macro_rules! uni_pow {
+        ($name:expr, $spec:expr, $mk_air:expr, $trace:expr, $pis:expr) => {
+            out.push((
+                format!("uni/{TAG}/{}", $name),
+                Box::new(move || {
+                    uni_target!($name, $mk_air, $trace, $pis, (|| make_config_spec($spec)), (|| fri_params_spec($spec)), MyConfig,
+                        InnerFri, fri_plain, RecConfig, (|l: &EvLog| rec_config_spec(l, $spec)), $spec.tuple())
+                }),
+            ));
+        };
+    }
+    macro_rules! unizk_pow {
+        ($name:expr, $spec:expr, $seed:expr, $mk_air:expr, $trace:expr, $pis:expr) => {
+            out.push((
+                format!("unizk/{TAG}/{}", $name),
+                Box::new(move || {
+                    uni_target!($name, $mk_air, $trace, $pis, (|| make_zk_config_spec($seed, $spec)), (|| fri_params_spec($spec)),
+                        MyConfigZk, InnerFriZk, fri_zk, RecConfigZk, (|l: &EvLog| rec_config_zk_spec(l, $spec)), $spec.tuple())
+                }),
+            ));
+        };
+    }
+    macro_rules! batch_pow {
+        ($name:expr, $spec:expr, $airs:expr, $traces:expr, $pvs:expr) => {
+            out.push((
+                format!("batch/{TAG}/{}", $name),
+                Box::new(move || {
+                    batch_target!($name, MyConfig, InnerFri, |_s: u64| make_config_spec($spec), fri_plain, RecConfig,
+                        (|l: &EvLog| rec_config_spec(l, $spec)), $airs, $traces, $pvs, (|| fri_params_spec($spec)), $spec.tuple())
+                }),
+            ));
+        };
+    }
+    macro_rules! batchzk_pow {
+        ($name:expr, $spec:expr, $airs:expr, $traces:expr, $pvs:expr) => {
+            out.push((
+                format!("batchzk/{TAG}/{}", $name),
+                Box::new(move || {
+                    batch_target!($name, MyConfigZk, InnerFriZk, |s: u64| make_zk_config_spec(s, $spec), fri_zk, RecConfigZk,
+                        (|l: &EvLog| rec_config_zk_spec(l, $spec)), $airs, $traces, $pvs, (|| fri_params_spec($spec)), $spec.tuple())
+                }),
+            ));
+        };
+    }
+
+    // plain PCS, uni-STARK (no commit-phase grinding: `uni/*/fib-fri2`)
+    uni_pow!("fib-c1q8", C1Q8, FibonacciAir {}, generate_trace_rows::<F>(0, 1, 8), vec![F::ZERO, F::ONE, F::from_u64(21)]);
+    uni_pow!("mul-pre-c3q1", C3Q1, mul, mul.traces::<F>().0, vec![]);
+    // hiding PCS, uni-STARK
+    unizk_pow!("fib-c1q8", C1Q8, 5, FibonacciAir {}, generate_trace_rows::<F>(0, 1, 8), vec![F::ZERO, F::ONE, F::from_u64(21)]);
+    unizk_pow!("fib-c0q3", C0Q3, 7, FibonacciAir {}, generate_trace_rows::<F>(0, 1, 8), vec![F::ZERO, F::ONE, F::from_u64(21)]);
+    unizk_pow!("mul-pre-c3q1", C3Q1, 6, mul, mul.traces::<F>().0, vec![]);
+    unizk_pow!("fib-fri2", FriSpec::FRI2, 8, FibonacciAir {}, generate_trace_rows::<F>(0, 1, 16), vec![F::ZERO, F::ONE, F::from_u64(987)]);
+    // plain PCS, batch-STARK
+    batch_pow!(
+        "mixed-c1q8",
+        C1Q8,
+        vec![DemoAir::Fib, DemoAir::Add(AddAir { open_next: false }), DemoAir::Mul(mul)],
+        vec![generate_trace_rows::<F>(0, 1, 4), add_trace::<F>(2), mul.traces::<F>().0],
+        vec![vec![F::ZERO, F::ONE, F::from_u64(3)], vec![], vec![]]
+    );
+    batch_pow!(
+        "bus-all-c0q3",
+        C0Q3,
+        vec![DemoAir::Bus { sign: 1, open_next: true }, DemoAir::Bus { sign: -1, open_next: false }],
+        vec![bus_trace::<F>(8, 8, 0), bus_trace::<F>(8, 8, 0)],
+        vec![vec![], vec![]]
+    );
+    batch_pow!(
+        "bus-mixed-c3q1",
+        C3Q1,
+        vec![DemoAir::Bus { sign: 1, open_next: true }, DemoAir::Bus { sign: -1, open_next: true }, DemoAir::Add(AddAir { open_next: true })],
+        vec![bus_trace::<F>(8, 8, 0), bus_trace::<F>(8, 8, 0), add_trace::<F>(8)],
+        vec![vec![], vec![], vec![]]
+    );
+    // hiding PCS, batch-STARK
+    batchzk_pow!(
+        "mixed-c1q8",
+        C1Q8,
+        vec![DemoAir::Fib, DemoAir::Add(AddAir { open_next: false })],
+        vec![generate_trace_rows::<F>(0, 1, 8), add_trace::<F>(4)],
+        vec![vec![F::ZERO, F::ONE, F::from_u64(21)], vec![]]
+    );
+    batchzk_pow!(
+        "bus-mixed-c0q3",
+        C0Q3,
+        vec![DemoAir::Add(AddAir { open_next: false }), DemoAir::Bus { sign: 1, open_next: true }, DemoAir::Bus { sign: -1, open_next: true }],
+        vec![add_trace::<F>(4), bus_trace::<F>(8, 8, 0), bus_trace::<F>(8, 8, 0)],
+        vec![vec![], vec![], vec![]]
+    );
+    batchzk_pow!(
+        "mixed-pre-c3q1",
+        C3Q1,
+        vec![DemoAir::Add(AddAir { open_next: false }), DemoAir::Mul(mul)],
+        vec![add_trace::<F>(4), mul.traces::<F>().0],
+        vec![vec![], vec![]]
+    );
+    batchzk_pow!(
+        "mixed-fri2",
+        FriSpec::FRI2,
+        vec![DemoAir::Fib, DemoAir::Add(AddAir { open_next: false })],
+        vec![generate_trace_rows::<F>(0, 1, 16), add_trace::<F>(4)],
+        vec![vec![F::ZERO, F::ONE, F::from_u64(987)], vec![]]
+    );
+    // the circuit tables (BatchStarkProver / verify_p3_batch_proof_circuit)
+    out.push((format!("tables/{TAG}/arith-c2q3"), Box::new(|| tables_target_spec("arith-c2q3", Some(C2Q3)))));
 }
